@@ -3,6 +3,8 @@ import simple
 
 
 def nontrivial(v):
+    if "srcs" in v:
+        return v["x"].get("n", 0) >= 2          # byte-level family: two or more fragments
     return v["x"].get("nchunks", 0) >= 2 and v["x"].get("nstmts", 0) >= 3
 
 
@@ -23,9 +25,15 @@ def check(run, only=None):
     run.rule = ("skeletons: chunk construct chunk for 18 chunks (multi-byte UTF-8, LF, CRLF, lone { } % #, closing delimiters, '-') "
                 "x 14 simple constructs (print, comments, verbatim bodies with prints/tags/comments), chunks alone and adjacent, "
                 "and the same inside if/else/for/block/set/filter/macro bodies (depth 2; thorough depth 3), each in canonical and "
-                "tight ({%if x%}) spelling; non-trivial = >= 2 literal chunks and >= 1 construct")
-    run.assumptions = ["a literal run followed by a construct does not end in '{'"]
+                "tight ({%if x%}) spelling; non-trivial = >= 2 literal chunks and >= 1 construct; plus byte-level sources decided by "
+                "Lexer.tla+Parser.tla+Exec.tla: all sequences of up to 2 (thorough 3) of 20 source fragments, and verbatim "
+                "sandwiches (5 spellings of the opening tag x bodies of up to 2 (3) fragments that would be syntax elsewhere x 3 "
+                "spellings of the closing tag)")
+    run.assumptions = ["AST-level family: a literal run followed by a construct does not end in '{' (the byte-level family has no such exclusion)"]
     simple.gen_and_replay(run, "C03", nontrivial=nontrivial, only=only, sigfn=sigfn, check_log=False, deadline_ms=3000)
+    if only is None:
+        # the same property decided from BYTES by the whole specification pipeline (Lexer -> Parser -> Exec)
+        simple.gen_and_replay(run, "C03_Src", nontrivial=nontrivial, sigfn=sigfn, check_log=False, deadline_ms=3000)
 
 
 def replay(run, path):
